@@ -8,6 +8,7 @@ import (
 	"fmt"
 	"go/token"
 	"go/types"
+	"os"
 	"sort"
 	"strings"
 
@@ -122,32 +123,32 @@ func (s pathSet) sorted() []apath {
 // ---- effects ------------------------------------------------------------------
 
 type lockRef struct {
-	base  ssa.Value // object whose mutex field is locked (intraprocedural identity); nil when lifted
-	path  apath     // param-rooted path of that object in the summarised function's terms (when expressible)
-	hasP  bool
-	class string // "Owner.field" of the mutex
-	shared bool  // acquired with RLock: excludes writers only
+	base   ssa.Value // object whose mutex field is locked (intraprocedural identity); nil when lifted
+	path   apath     // param-rooted path of that object in the summarised function's terms (when expressible)
+	hasP   bool
+	class  string // "Owner.field" of the mutex
+	shared bool   // acquired with RLock: excludes writers only
 }
 
 type effect struct {
-	kind    string // store | mapupdate | append | copy | delete | sort | read | callback | lock
-	target  apath  // written/read location (last selector names the field or "[]")
-	owner   string // declared struct type owning the accessed field ("" for container elements)
-	field   string
-	elemOf  string // for container writes: owner.field of the container when known
-	pos     token.Pos
-	fn      *ssa.Function
-	chain   []string
-	guarded bool     // the guard-table mutex of the accessed object is held
-	gbase   apath    // object whose mutex is needed, param-rooted, when not yet guarded
-	gHasP   bool     // gbase expressible in caller terms
-	held    []string // classes of mutexes held (must) at the access, accumulated over the chain
-	refOnly bool     // write control-dependent on the overwritten value being a *Ref placeholder
-	nilOnly bool     // write control-dependent on the overwritten value being nil/zero
-	what    string   // description for callbacks
-	blk     *ssa.BasicBlock
-	needLen int      // >=0: the access happens only when this (slice) parameter of the summarised function is non-empty
-	initOnly bool    // the access happens only while the receiver Root is uninitialised (types == nil): first use, before NewRoot returns
+	kind     string // store | mapupdate | append | copy | delete | sort | read | callback | lock
+	target   apath  // written/read location (last selector names the field or "[]")
+	owner    string // declared struct type owning the accessed field ("" for container elements)
+	field    string
+	elemOf   string // for container writes: owner.field of the container when known
+	pos      token.Pos
+	fn       *ssa.Function
+	chain    []string
+	guarded  bool     // the guard-table mutex of the accessed object is held
+	gbase    apath    // object whose mutex is needed, param-rooted, when not yet guarded
+	gHasP    bool     // gbase expressible in caller terms
+	held     []string // classes of mutexes held (must) at the access, accumulated over the chain
+	refOnly  bool     // write control-dependent on the overwritten value being a *Ref placeholder
+	nilOnly  bool     // write control-dependent on the overwritten value being nil/zero
+	what     string   // description for callbacks
+	blk      *ssa.BasicBlock
+	needLen  int  // >=0: the access happens only when this (slice) parameter of the summarised function is non-empty
+	initOnly bool // the access happens only while the receiver Root is uninitialised (types == nil): first use, before NewRoot returns
 }
 
 func (e effect) key() string {
@@ -183,6 +184,7 @@ type fnLocal struct {
 	mayAtRet  map[*ssa.Return]map[string]lockRef
 	deferred  map[string]bool
 	inProg    map[ssa.Value]bool
+	cuts      int // number of times a provenance cycle was cut (a value met while it was being computed)
 	freshFld  map[string]pathSet // fresh alloc field stores: allocKey+sels -> prov
 	lockSites []lockSite
 }
@@ -370,9 +372,11 @@ func (e *effEngine) prov(fn *ssa.Function, v ssa.Value) pathSet {
 		return ps
 	}
 	if st.inProg[v] {
+		st.cuts++
 		return pathSet{}
 	}
 	st.inProg[v] = true
+	cuts0 := st.cuts
 	out := pathSet{}
 	switch t := v.(type) {
 	case *ssa.Parameter:
@@ -473,7 +477,11 @@ func (e *effEngine) prov(fn *ssa.Function, v ssa.Value) pathSet {
 		out.addAll(e.callRet(fn, t, 0))
 	}
 	delete(st.inProg, v)
-	st.provMemo[v] = out
+	// a result computed below a cut is partial (it lacks what flows round the cycle): only the value at
+	// the head of the computation is complete enough to be remembered
+	if st.cuts == cuts0 || len(st.inProg) == 0 {
+		st.provMemo[v] = out
+	}
 	return out
 }
 
@@ -583,6 +591,7 @@ func (e *effEngine) storesTo(fn *ssa.Function, a *ssa.FieldAddr) (pathSet, bool)
 	found := false
 	domFresh := false
 	allFresh := true
+	var fieldStores []*ssa.Store
 	for _, b := range fn.Blocks {
 		for _, in := range b.Instrs {
 			st, ok := in.(*ssa.Store)
@@ -594,9 +603,12 @@ func (e *effEngine) storesTo(fn *ssa.Function, a *ssa.FieldAddr) (pathSet, bool)
 				continue
 			}
 			found = true
+			fieldStores = append(fieldStores, st)
+			cuts0 := e.local(fn).cuts
 			pv := e.prov(fn, st.Val)
 			out.addAll(pv)
-			fresh := len(pv) > 0
+			// a provenance computed across a cut cycle is partial: it cannot prove freshness
+			fresh := len(pv) > 0 && e.local(fn).cuts == cuts0
 			for _, p := range pv {
 				if p.kind != rFresh {
 					fresh = false
@@ -604,10 +616,50 @@ func (e *effEngine) storesTo(fn *ssa.Function, a *ssa.FieldAddr) (pathSet, bool)
 			}
 			if !fresh {
 				allFresh = false
-			} else if st.Block().Dominates(a.Block()) {
+			} else if instrDominates(st, a) {
 				domFresh = true
 			}
 		}
+	}
+	// a struct copied into the local as a whole (lf := *field): the copy's slice, map and pointer fields
+	// alias what the original's fields refer to
+	if baseAlloc != nil {
+		var sels []string
+		for v := ssa.Value(a); ; {
+			fa, ok := v.(*ssa.FieldAddr)
+			if !ok {
+				break
+			}
+			sels = append([]string{selOfField(fa.X.Type(), fa.Field)}, sels...)
+			v = fa.X
+		}
+		for _, ref := range *baseAlloc.Referrers() {
+			if st, ok := ref.(*ssa.Store); ok && st.Addr == ssa.Value(baseAlloc) {
+				// killed: a store to this very field that is executed after the copy and before the use
+				killed := false
+				for _, fs := range fieldStores {
+					if instrDominates(st, fs) && instrDominates(fs, a) {
+						killed = true
+					}
+				}
+				if killed {
+					continue
+				}
+				for _, p := range e.prov(fn, st.Val) {
+					if p.kind == rFresh {
+						continue
+					}
+					for _, sel := range sels {
+						p = p.add(sel)
+					}
+					out.add(p)
+					found = true
+				}
+			}
+		}
+	}
+	if os.Getenv("EFF_DEBUG") != "" && fn.Name() == os.Getenv("EFF_DEBUG") {
+		fmt.Printf("DEBUG storesTo %s %s: found=%v base=%v stores=%d out=%v\n", a.Name(), want, found, baseAlloc != nil, len(fieldStores), out.sorted())
 	}
 	if !found {
 		return nil, false
@@ -619,6 +671,26 @@ func (e *effEngine) storesTo(fn *ssa.Function, a *ssa.FieldAddr) (pathSet, bool)
 		return out, true
 	}
 	return nil, false
+}
+
+// instrDominates: x is executed before y on every path reaching y.
+func instrDominates(x, y ssa.Instruction) bool {
+	bx, by := x.Block(), y.Block()
+	if bx == nil || by == nil {
+		return false
+	}
+	if bx != by {
+		return bx.Dominates(by)
+	}
+	for _, in := range bx.Instrs {
+		if in == x {
+			return true
+		}
+		if in == y {
+			return false
+		}
+	}
+	return false
 }
 
 func rootAlloc(v ssa.Value) *ssa.Alloc {
